@@ -239,7 +239,8 @@ class C16(Prop):
         # seeded random
         rng = ctx.rng("c16")
         keypool = ["k1", "k2", "k3", "", "ké", "subevents2"]
-        valpool = ["x", "y", "", "x", ["x"], ["x", "y"], [], 2, 3.5, -7, None, True, {"a": 1}, [["x"]], [2, 3],
+        valpool = ["x", "y", "", "x", ["x"], ["x", "y"], ["y", "x"], ["x", "x"], ["x", "y", "x"], [], 2, 3.5, -7, None, True, {"a": 1}, [["x"]], [2, 3], [3, 2],
+                   "8080", 8080, "None", "True", "['x']",
                    [2, "[x"], "a\"[b", "\\", [2, "\\\"", {"b": []}], "ü☃", 10**20, ["x", 2], [None],
                    [2, "a\"[b"], [2, "\\", [3]], [2, "{"], [False, "ü[", 2.5]]
         hashpool = [v for v in valpool if not unhashable(v)]
@@ -282,7 +283,7 @@ class C16(Prop):
         nr = ctx.pick(1500, 40000)
         for _ in range(nr):
             pool = hashpool if rng.random() < 0.85 else valpool
-            small = ["x", "y", ["x"], 2] if rng.random() < 0.5 else pool
+            small = rng.choice([["x", "y", ["x"], 2], [["x", "y"], ["y", "x"], ["x", "x"], ["x"]], [8080, "8080", None, "None", True, "True"]]) if rng.random() < 0.6 else pool
             l = revents(rng.randint(0, 30), small, rng.choice([0.3, 0.6, 0.9]))
             keys = [rng.choice(keypool[:4]) for _ in range(rng.choice([0, 1, 1, 2, 2, 3]))]
             out.append(("random-merge", maybe_alias({"k": "merge", "l": l, "keys": keys})))
